@@ -232,6 +232,7 @@ def strategy(tier):
         "prelink": st.lists(st.tuples(st.sampled_from(["child", "children", "children", "table", "group", "mlist", "mchild"]), st.integers(0, 2), P).map(list),
                             max_size=5),
         "ops": st.lists(OP, min_size=2, max_size=25),
+        "pre_added": st.one_of(st.just([]), st.lists(st.tuples(st.integers(0, 2), P).map(list), min_size=1, max_size=2)),
     })
 
 
@@ -272,6 +273,14 @@ def run(case, ctx):
                 cur = nxt
     for kind, a, b in case["prelink"]:
         link(pool[a % npool], kind, pool[b % npool])
+    # objects prepared while unobserved: a metadata-selected LINK trait added to the instance and already holding a value
+    for a, b in case.get("pre_added", ()):
+        n = pool[a % npool]
+        if "xmchild" not in n.__dict__.get("_added", ()):
+            n.add_trait("xmchild", Instance(HasTraits, metac=True))
+            n.__dict__.setdefault("_added", set()).add("xmchild")
+        n.xmchild = pool[b % npool]
+        ctx.label("instance-link-trait-before-registration")
     events = []
     text = to_text(paths)
 
@@ -553,4 +562,4 @@ def run(case, ctx):
 
 def stages(tier):
     return [{"name": "hist", "kind": "hyp", "strategy": strategy, "run": run,
-             "examples": {"quick": 4000, "thorough": 300000}, "shards": 16}]
+             "examples": {"quick": 12000, "thorough": 300000}, "shards": 16}]
